@@ -57,6 +57,13 @@ PROPS = {
         'trusted_base': [],
         'not_decided': ['non-increasing in speed beyond the assumed monotonicity of IEEE division'],
     },
+    'C11': {
+        'technique': 'Verus contract on the extracted text of Engine::generator (per-stream wiring) + Kani harnesses on Mask::create / MlpgAdjust::create / Models::stream',
+        'level_text': 'unbounded proof that stream i receives exactly msd_threshold[i], gv_weight[i], model_stream(i); voiced <=> msd > threshold and NODATA placement bounded by Kani',
+        'level_note': 'callees abstracted by uninterpreted functions of their arguments (determinism of safe Rust without interior mutability assumed)',
+        'verus': ['engine'],
+        'assumptions': [], 'trusted_base': [], 'not_decided': [],
+    },
     'C20': {
         'technique': 'Kani native function contracts (requires/ensures/modifies + proof_for_contract) and loop-free full-domain harnesses on Condition setters/getters',
         'level_text': 'complete (loop-free, full symbolic f64/usize domain) proofs of every scalar setter/getter contract incl. frame; indexed setters bounded to vectors of length 3',
